@@ -23,3 +23,15 @@ Theorem C12_failed_verification_is_sticky : forall s,
   snd (step s e) = Refused /\ verified (fst (step s e)) = Some false.
 Proof. exact failed_verification_is_sticky. Qed.
 Print Assumptions C12_failed_verification_is_sticky.
+
+Theorem C12_failed_reap_leaves_store_unchanged : forall s ids gone v,
+  snd (step s (EReap ids gone v)) = Refused ->
+  files (fst (step s (EReap ids gone v))) = files s /\
+  plan (fst (step s (EReap ids gone v))) = plan s /\
+  (verified (fst (step s (EReap ids gone v))) = verified s \/ verified s = None).
+Proof. exact failed_reap_leaves_store_unchanged. Qed.
+Print Assumptions C12_failed_reap_leaves_store_unchanged.
+
+Theorem C12_no_plan_left_behind : forall crcs es, plan (fst (run (fresh crcs) es)) = false.
+Proof. exact no_plan_left_behind. Qed.
+Print Assumptions C12_no_plan_left_behind.
